@@ -221,6 +221,18 @@ static void sc_setters(const OCase &c, Run &r) {
   vf_fail_at = -1;
   pixman_region32_init_rects(&reg, bx, 5);
   vf_fail_at = save;
+  // half of the destinations already have a (single-rectangle) clip, set without faults: a failing replacement must not
+  // leave the image unclipped (seeded C15u)
+  bool old_clip = c.b & 1;
+  pixman_box32_t ob = {2, 1, 12, 3};
+  if (old_clip) {
+    vf_fail_at = -1;
+    pixman_region32_t o;
+    pixman_region32_init_with_extents(&o, &ob);
+    pixman_image_set_clip_region32(dst, &o);
+    pixman_region32_fini(&o);
+    vf_fail_at = save;
+  }
   bool t_ok = pixman_image_set_transform(src, &t);
   bool f_ok = pixman_image_set_filter(src, PIXMAN_FILTER_CONVOLUTION, params, 11);
   bool c_ok = pixman_image_set_clip_region32(dst, &reg);
@@ -242,6 +254,12 @@ static void sc_setters(const OCase &c, Run &r) {
     if (t_ok) pixman_image_set_transform(s2, &t);
     if (f_ok) pixman_image_set_filter(s2, PIXMAN_FILTER_CONVOLUTION, params, 11);
     if (c_ok) pixman_image_set_clip_region32(dd, &reg);
+    else if (old_clip) {
+      pixman_region32_t o;
+      pixman_region32_init_with_extents(&o, &ob);
+      pixman_image_set_clip_region32(dd, &o);
+      pixman_region32_fini(&o);
+    }
     pixman_image_composite32(PIXMAN_OP_SRC, s2, nullptr, dd, 0, 0, 0, 0, 0, 0, 16, 4);
     // the composite itself is a void drawing call: with an allocation failing inside it, it may skip work, so every
     // pixel must be either what an image with exactly the reported settings draws, or untouched
@@ -249,6 +267,18 @@ static void sc_setters(const OCase &c, Run &r) {
     for (int i = 0; i < 64; i++) (void)m4.u32();
     for (int i = 0; i < 64; i++) {
       uint32_t initial = 0xff000000 | (m4.u32() & 0xffffff);
+      if (old_clip && !c_ok) {
+        // the replacement failed: whether the old clip survives is not promised, but drawing stays inside a clip the
+        // caller asked for — the old one or the new one
+        int px = i % 16, py = i / 16;
+        bool in_old = px >= ob.x1 && px < ob.x2 && py >= ob.y1 && py < ob.y2, in_new = false;
+        for (auto &q : bx) in_new |= px >= q.x1 && px < q.x2 && py >= q.y1 && py < q.y2;
+        if (dpx[i] != initial && !in_old && !in_new) {
+          r.fail(fmt("set_clip_region32 failed on an image that had a clip, and pixel %d outside both the old and the new clip was drawn (%08x -> %08x)", i, initial, dpx[i]));
+          break;
+        }
+        continue;
+      }
       if (dpx[i] != d2[i] && !(r.faulted && dpx[i] == initial)) {
         r.fail(fmt("setters reported transform=%d filter=%d clip=%d but pixel %d is %08x; an image with exactly those settings draws %08x (initial %08x)", t_ok, f_ok, c_ok, i, dpx[i], d2[i], initial));
         break;
